@@ -99,7 +99,7 @@ class TU:
 
     def S(self, fn):
         if fn not in self._sm:
-            opts = {"record_loads": True}
+            opts = {"record_loads": True, "eh": "+eh" in self.tag}
             if fn not in self.BOOTSTRAP and "w_ctor" in self.meta:
                 toff = self.table_offset()
                 tf = set()
